@@ -30,18 +30,21 @@ pub struct Entry<T>(ptr::NonNull<Node<T>>);
 unsafe impl<T: Sync> Sync for Entry<T> {}
 
 impl<T> Entry<T> {
-    /// get the internal data mut ref
+    /// get the internal data mut ref, `f` is not called if the data is already
+    /// popped by the consumer or taken by `remove`
     /// # Safety
     ///
-    /// must make sure it's not popped by the consumer
+    /// must make sure it's not concurrently popped by the consumer,
+    /// like `remove` it's only safe for the consumer that call pop()
     #[inline]
     pub unsafe fn with_mut_data<F>(&self, f: F)
     where
         F: FnOnce(&mut T),
     {
         let node = &mut *self.0.as_ptr();
-        let data = node.value.as_mut().expect("Node value is None");
-        f(data);
+        if let Some(data) = node.value.as_mut() {
+            f(data);
+        }
     }
 
     /// judge if the node is still linked in the list
